@@ -67,6 +67,9 @@ def pad_term(pad, uid):
         sig = "(Some {| s_by := %s; s_counter := %s; s_ct := %s |})" % (cN(s["by"]), cN(pad["counter"]), ct)
     elif s["t"] == "counter":
         sig = "(Some {| s_by := %s; s_counter := %s; s_ct := %s |})" % (cN(s["by"]), cN(s["counter"]), ct)
+    elif s["t"] == "junk":
+        other = "{| c_to := None; c_plain := %s; c_uid := %s |}" % (cbytes(b"junk".hex()), cN(uid + 200000))
+        sig = "(Some {| s_by := 99%%N; s_counter := %s; s_ct := %s |})" % (cN(pad["counter"]), other)
     else:   # signature over another ciphertext
         other = "{| c_to := Some %s; c_plain := %s; c_uid := %s |}" % (cN(s["by"]), cbytes(b"other".hex()), cN(uid + 100000))
         sig = "(Some {| s_by := %s; s_counter := %s; s_ct := %s |})" % (cN(s["by"]), cN(pad["counter"]), other)
@@ -144,12 +147,33 @@ def chunk_body(b):
     return {"t": "chunk", "hex": bytes(b).hex()}
 
 
-def mk_pad(owner, counter, tag, sig, enc_to=OWNER, encoding=3, cipher=True):
-    p = {"t": "pad", "owner": owner, "counter": counter, "data": bytes([0xA0, tag, counter % 251]).hex(),
-         "encoding": encoding, "sig": sig}
-    if cipher:
+def mk_pad(owner, counter, tag, sig, enc_to=OWNER, encoding=None, cipher=True, empty=False):
+    """`tag` doubles as the pad's data_encoding: unsigned by design (O4), it travels with the pad and lets
+    the oracle tell which received version the client handed back without trusting anything the code computes"""
+    p = {"t": "pad", "owner": owner, "counter": counter,
+         "data": "" if empty else bytes([0xA0, tag % 256, counter % 251]).hex(),
+         "encoding": tag if encoding is None else encoding, "sig": sig}
+    if cipher and not empty:
         p["enc_to"] = enc_to
     return p
+
+
+def pad_cross(base):
+    """signature {none, junk, other key, valid} x encrypted_data {empty, non-empty} x counter {0, 1, inflated}
+    x owner {requested, foreign}: 48 versions a holder can fabricate or replay"""
+    out = []
+    tag = 100
+    for owner in (OWNER, 1):
+        for signame in ("none", "junk", "other", "valid"):
+            for empty in (True, False):
+                for cname, counter in (("c0", 0), ("c1", 1), ("inflated", base + 10 ** 6)):
+                    sig = {"none": {"t": "none"}, "junk": {"t": "junk"}, "other": {"t": "good", "by": 2},
+                           "valid": {"t": "good", "by": owner}}[signame]
+                    out.append(("x/%s/%s/%s/%s" % ("own" if owner == OWNER else "foreign", signame,
+                                                   "empty" if empty else "data", cname),
+                                rec(KIND_PAD, mk_pad(owner, counter, tag, sig, empty=empty))))
+                    tag += 1
+    return out
 
 
 def pad_catalogue(base):
@@ -265,6 +289,20 @@ def gen_vault(rng, tier):
             recs = [dict(cat[i][1], key=rng.choice(["requested", "content", "unrelated"])) for i in t]
             cases.append({"op": "vault", "kind": "vault/split3", "owner": OWNER,
                           "reply": {"t": "split", "recs": recs, "first": rng.randrange(3)}})
+    # fabricated / replayed versions: as the only reply, alone in a split, and next to authentic versions
+    for base in bases[:2] if tier == "quick" else bases:
+        cat = dict(pad_catalogue(base))
+        for name, r in pad_cross(base):
+            cases.append({"op": "vault", "kind": "vault/ok/" + name, "owner": OWNER, "reply": r})
+            cases.append({"op": "vault", "kind": "vault/split1/" + name, "owner": OWNER, "reply": {"t": "split", "recs": [r]}})
+            for first in (0, 1):
+                cases.append({"op": "vault", "kind": "vault/split2/" + name, "owner": OWNER,
+                              "reply": {"t": "split", "recs": [r, cat["auth-mid"]], "first": first}})
+            if base == bases[0] or tier != "quick":
+                cases.append({"op": "vault", "kind": "vault/split3/" + name, "owner": OWNER,
+                              "reply": {"t": "split", "recs": [cat["auth-low"], r, cat["auth-high"]], "first": rng.randrange(3)}})
+                cases.append({"op": "vault", "kind": "vault/split2-chunkhdr/" + name, "owner": OWNER,
+                              "reply": {"t": "split", "recs": [cat["forged-kind-chunk"], r, cat["auth-low"]], "first": 0}})
     for e in ("NotFound", "Timeout", "KindMismatch", "DoesNotMatch", "NotEnoughCopies"):
         cases.append({"op": "vault", "kind": "vault/neterr", "owner": OWNER, "reply": {"t": "err", "e": e}})
     for raw in ("", "91", "9105", "9105c0"):
@@ -355,6 +393,22 @@ def oracle(c, o):
         if not o.get("key_ok"):
             v.append(("wrong-key-asked", "the vault read did not ask for exactly the owner's scratchpad address"))
         got_counter = None
+        # which received version came back?  identified by data_encoding (unique per version in a case) and
+        # judged only by what the case says about who signed what -- never by the code's own is_valid()
+        by_enc = {}
+        for b in bodies:
+            if b["t"] == "pad":
+                by_enc.setdefault(b.get("encoding", 0), []).append(b)
+        for what, enc in (("get_vault_from_network", p.get("encoding") if p["res"] == "ok" and not p.get("is_new") else None),
+                          ("fetch_and_decrypt_vault", f.get("encoding") if f["res"] == "ok" else None)):
+            if enc is None:
+                continue
+            cands = by_enc.get(enc, [])
+            if not any(pad_is_authentic(b, owner) for b in cands):
+                desc = ", ".join("owner %s, signature %s, %s data, counter %d" % (
+                    b["owner"], b["sig"], "empty" if not b["data"] else "some", b["counter"]) for b in cands) or "none received"
+                v.append(("vault-unauthenticated", "%s handed back a version that is not owned and validly signed by the "
+                          "requested key (%s); %d authentic version(s) were received" % (what, desc, len(auth))))
         if p["res"] == "ok" and not p["is_new"]:
             got_counter = p["counter"]
             if not (p["valid"] and p["owner_ok"]):
